@@ -973,3 +973,38 @@ class CallGraph:
                             break
                     out.append((k2 if k2 in self.bodies else k, i, t))
         return out
+
+
+
+def merge_delegating_arms(m, same=lambda inner, outer: True, depth=2):
+    """A table `match (a.kind(), b.kind()) { .. }` that was split in two by arm groups - the last, irrefutable arm hands the pair to a
+    single-use helper (spliced under `inl` by Facts.thir) whose body is the rest of the table - is presented as ONE match: the
+    delegating arm is replaced by the helper's arms, in order.  Anything else is returned unchanged."""
+    if depth == 0 or not isinstance(m, dict) or m.get("k") != "match":
+        return m
+    arms = []
+    changed = False
+    for arm in m.get("arms", []):
+        body = arm.get("body")
+        e = body
+        for _ in range(6):
+            e = peel(e)
+            if isinstance(e, dict) and e.get("k") == "block" and not e.get("stmts") and e.get("expr") is not None:
+                e = e["expr"]
+            else:
+                break
+        irrefutable = pat_match(arm.get("pat"), ANY) == YES and arm.get("guard") is None
+        if irrefutable and isinstance(e, dict) and e.get("k") == "call" and isinstance(e.get("inl"), dict):
+            inner = [x for x in walk(e["inl"]["body"]) if x.get("k") == "match" and str(x.get("src", "")).startswith("Normal")
+                     and x.get("sty") == m.get("sty")]
+            if inner and same(inner[0], m):
+                sub = merge_delegating_arms(inner[0], same, depth - 1)
+                arms.extend(sub.get("arms", []))
+                changed = True
+                continue
+        arms.append(arm)
+    if not changed:
+        return m
+    out = dict(m)
+    out["arms"] = arms
+    return out
